@@ -271,6 +271,11 @@ class ListingBase(Machine):
             i = rng.randrange(n)
             r = rng.random()
             pick_var = None
+            # the first row of a table at the first result set is what the reader works the
+            # layout of the table out from: its first numbers are rewritten more often
+            first_row = r >= 0.8
+            if first_row:
+                i = 0
             if varying and r < 0.35:
                 # a row that prints more numbers at one result set than at another: rewrite one
                 # of the numbers that are blank elsewhere, where the row is longest
@@ -297,11 +302,16 @@ class ListingBase(Machine):
                     pick_var = None
             elif short_rows and r < 0.55:
                 located = short_rows
+            if first_row:
+                located = [L for L in located if L.row == 0] or located
             if not located:
                 continue
             L = located[rng.randrange(len(located))]
             t = lst._table[L.table]
             j = rng.randrange(len(L.tail))
+            if first_row and L.row == 0:
+                j = rng.randrange(min(3, len(L.tail)))
+                self.ctx.probes['rewrite_in_first_row_of_table'] += 1
             if pick_var is not None and len(L.tail) > pick_var[1]:
                 j = pick_var[1] + rng.randrange(len(L.tail) - pick_var[1])
             col, tok = L.tail[j]
